@@ -574,8 +574,10 @@ def parse_getters(sh, T, ctx, body, report):
     pos = 0
     fields = {f[0]: f for f in sh.fields}
     argnames = [a[0] for a in sh.args]
-    for m in re.finditer(r"pub(?:\(crate\))? fn (\w+)(?:<'a>)?\(&self\)\s*->\s*([^{]+?)\s*(?:where[^{]*)?\{", body):
-        name, ret = m.group(1), tight(m.group(2))
+    for m in re.finditer(r"pub(\(crate\))? fn (\w+)(?:<'a>)?\(&self\)\s*->\s*([^{]+?)\s*(where[^{]*)?\{", body):
+        name, ret = m.group(2), tight(m.group(3))
+        # the Rust dispatch can only call public getters, and (for `Table<()>`) those without a bound on T
+        callable = m.group(1) is None and not (sh.generic and m.group(4))
         end = balanced(body, m.end() - 1)
         b = tight(body[m.end():end - 1])
         if "unwrap" not in b and "expect" not in b and "[" not in b and "panic" not in b and "unreachable" not in b:
@@ -585,7 +587,8 @@ def parse_getters(sh, T, ctx, body, report):
                     raise Unparsed(f"{sh.name}: getter {name} reads unknown shape field")
             sh.n_offset_getters += 1
             sh.consumed += 1
-            sh.getter_calls.append(name)
+            if callable:
+                sh.getter_calls.append(name)
             continue
         cond = False
         m1 = re.fullmatch(r"let range=self\.shape\.(\w+)_byte_range\(\)(\??);(.*)", b)
@@ -653,7 +656,8 @@ def parse_getters(sh, T, ctx, body, report):
                 if not re.fullmatch(r"\w+", rec):
                     raise Unparsed(f"{sh.name}: getter {name}: return {ret}")
                 sh.getters.append(("args", fid, "readArgsStruct", rec, gargs))
-        sh.getter_calls.append(name)
+        if callable:
+            sh.getter_calls.append(name)
         sh.consumed += 1
     # anything that is not a fn in the impl?
     # (doc comments were stripped; attributes are allowed)
